@@ -24,5 +24,8 @@ for xl, dl in [(0, 0), (1, 1), (1, 5), (2, 0), (2, 1), (2, 3), (3, 2), (3, 30), 
                   stubs=["crypto/elliptic curve -> stub (Data does not use it)", "math/big.Int as mathematical integers; Bytes() has the length determined by the value's interval"],
                   functions=["p256.(*curvePoint).Data", "p256.(*curvePoint).EmbedLen", "p256.(*curve).coordLen"], bound="x of exactly %d bytes (arbitrary content), length byte %d" % (xl, dl),
                   tiers=(["quick", "thorough"] if (xl, dl) in ((0, 0), (1, 5), (2, 3), (3, 30), (32, 30), (32, 31)) else ["thorough"])))
+H.append(dict(name="residue.Pick-cofactor6", pkg="./group/p256", files=["harness/C04/residue.go"], entry="HarnessResiduePick", mode="int", replay_entry="HarnessResiduePickReplay", unwind=64, loop_assume={"Embed": 1}, globals=["one", "two"],
+              stubs=["math/big.Int as mathematical integers; Exp by square-and-multiply in the encoding; Jacobi = arbitrary value in {-1,0,1}"],
+              functions=["p256.(*residuePoint).Pick", "p256.(*residuePoint).Embed", "p256.(*residuePoint).Valid", "random.Bits"], bound="residue group P=31, Q=5, cofactor 6; arbitrary stream; the first candidate is the one accepted (stated assumption: a retry repeats the same test on fresh bytes)"))
 json.dump(dict(property="C17", harnesses=H), open(os.path.join(os.path.dirname(__file__), "..", "specs", "C17.json"), "w"), indent=1)
 print(len(H))
